@@ -90,7 +90,7 @@ func baseAlphabet(keys []int, cfg CacheCfg, rich bool) []string {
 func init() {
 	plans["C01"] = func(thorough bool) []*Job {
 		var jobs []*Job
-		for _, cfg := range featureCfgs(thorough) {
+		for _, cfg := range featureCfgs(true) { // every node type (bound × expiry × refresh) also in the quick tier
 			keys := []int{1, 2, 3}
 			depth, budget, shards := 3, 40, 2
 			rich := true
